@@ -256,7 +256,7 @@ fn check_flow(rep: &Report, p: &FlowProgram, idx: usize, env: &drive::Env) {
             rep.violation(sig, format!("{}: satisfy returned a program that does not spend the commitment: {o:?}", p.label), run_replay(&p.text, m, false, "success|failure", o.class()));
         }
     }
-    if idx % 211 == 3 {
+    if idx % 211 == 3 || rep.no_sample_yet() {
         rep.sample(5, || json!({"label": p.label, "program": p.text, "maps": maps.len(), "under_constrained_witness_nodes": under_n}));
     }
 }
